@@ -244,6 +244,20 @@ static void op_refhash(const V &a, V &r) {
     for (auto &wk : ws) { eval_work(wk, wk.ref, n); h = fnv(wk.ref.data(), 4 * wk.ref.size(), h + 1); }
     r.push_back((ll) (h >> 1));
 }
+// nomain <spec> seed : the main thread never touches the FFT.  A set-up thread generates the key set, computes the reference outputs
+// and exits (so every thread that ever ran a transform is gone); then three waves of four fresh threads evaluate the same items.
+static void op_nomain(const V &a, V &r) {
+    const ll *v = a.data() + SPECN; std::vector<Work> ws; int n = 0;
+    std::thread setup([&]() { need_keys(a); n = cur.params->in_out_params->n; make_work(ws, 8, n, (unsigned) v[0]); for (auto &wk : ws) eval_work(wk, wk.ref, n); });
+    setup.join();
+    std::atomic<long> mism(0), evals(0);
+    for (int wave = 0; wave < 3; wave++) {
+        std::vector<std::thread> th;
+        for (int t = 0; t < 4; t++) th.emplace_back([&, t]() { for (int i = 0; i < 8; i++) { std::vector<int32_t> o; eval_work(ws[(i + t) % 8], o, n); evals++; if (o != ws[(i + t) % 8].ref) mism++; } });
+        for (auto &t : th) t.join();
+    }
+    r.push_back(mism); r.push_back(evals);
+}
 // history <spec> seed : the same evaluations after different histories on the same thread
 static void op_history(const V &a, V &r) {
     need_keys(a);
@@ -349,6 +363,7 @@ int main() {
         else if (op == "threads") op_threads(a, r);
         else if (op == "keythread") op_keythread(a, r);
         else if (op == "refhash") op_refhash(a, r);
+        else if (op == "nomain") op_nomain(a, r);
         else if (op == "history") op_history(a, r);
         else if (op == "footprint") op_footprint(a, r);
         else if (op == "poison") op_poison(a, r);
